@@ -105,8 +105,17 @@ Section Gather.
     re_order cell_order (gather_files seeds sigma).
 End Gather.
 
-(* ---- the mapping stage as a function of (n_rows, n_processors, chunk_size): the worker
-   count enters only through eff_chunk.  `work_rows r0 r1 seed` = the records of rows r0..r1 *)
+(* ---- the mapping stage (run_type_assignment_on_h5ad_cpu followed by re_order_blob) as a
+   function of (n_rows, n_processors, chunk_size), of the world (exit code and termination time
+   of every worker) and of the order sigma in which the workers appended to the shared list.
+   n_processors enters TWICE, as in the code:
+     - chunk_size = min(max(1, ceil(n_rows / n_processors)), chunk_size)     (eff_chunk), which
+       fixes the chunks (the row iterator cuts 0..n_rows into consecutive pieces of that size;
+       max_gb only bounds the memory of a CSC -> CSR conversion, not the chunk boundaries);
+     - as the bound of the dispatch loop (`while len(process_list) >= n_processors`), hence in
+       the interleaving of the seed draws with the polls (run_seeds).
+   A worker that does not exit with code 0 makes the inspector raise: no result.
+   `work_rows r0 r1 seed` = the records of rows r0..r1 computed with the generator of that seed *)
 Section Mapping.
   Variable A : Type.
   Variable S : Type.
@@ -116,24 +125,38 @@ Section Mapping.
   Definition chunk_work (n cs : nat) (i : nat) (seed : Z) : list (record A) :=
     let ch := nth i (chunks n cs) (O, O) in work_rows (fst ch) (snd ch) seed.
 
-  Definition mapping_result (cell_order : list Z) (s : S) (n p c : nat) (sigma : list nat)
+  Definition mapping_result (cell_order : list Z) (s : S) (n p c : nat) (W : world) (sigma : list nat)
     : option (list (record A)) :=
     let cs := eff_chunk n p c in
     let k := length (chunks n cs) in
-    final_list A (chunk_work n cs) cell_order (draws S draw k s) sigma.
+    let r := run_seeds S draw W p k s in
+    match fst r with
+    | POk => final_list A (chunk_work n cs) cell_order (map snd (snd r)) sigma
+    | _ => None
+    end.
 End Mapping.
 
-(* ---- statistics: per-worker partial sums are written to buffer files whose paths are
-   appended to buffer_path_list at dispatch; after the drain the parent adds them up in
-   THAT order (float addition is not associative: `add` is an arbitrary operation) *)
+(* ---- statistics (_precompute_summary_stats_from_h5ad_and_lookup): in the body of the dispatch
+   loop, right before the worker is created and started, the path of its buffer file is appended
+   to buffer_path_list; after the drain the parent opens the files of buffer_path_list one after
+   the other and adds them up (float addition is not associative: `add` is an arbitrary
+   operation).  The order of buffer_path_list is therefore the order of the EStart events of the
+   parent's log -- `starts` reads it off the log; that it is 0, 1, ..., k-1 whatever the world is
+   a theorem (Proofs/GatherP.v: starts_are_dispatch_order), not part of the definition *)
+Definition starts (log : list pev) : list nat :=
+  flat_map (fun e => match e with EStart w => [w] | EPop _ => [] end) log.
+
 Section Stats.
   Variable A : Type.
   Variable add : A -> A -> A.
   Variable zero : A.
   Variable partial : nat -> A.
-  Definition merge_stats (k : nat) : A := fold_left add (map partial (seq 0 k)) zero.
+  Definition fold_stats (order : list nat) : A := fold_left add (map partial order) zero.
+  (* the reference: the partial sums added in dispatch order *)
+  Definition merge_stats (k : nat) : A := fold_stats (seq 0 k).
   Definition stats_result (W : world) (n k : nat) : option A :=
-    match fst (run_pool_list W n k) with POk => Some (merge_stats k) | _ => None end.
+    let r := run_pool_list W n k in
+    match fst r with POk => Some (fold_stats (starts (snd r))) | _ => None end.
 End Stats.
 
 (* ---- reference markers: tmp_path_dict[col0] filled at dispatch, merged over
@@ -179,8 +202,9 @@ Definition run_gather (x : sx) : sx :=
           let name := fun i => nth i nm 0%Z in
           let chunk_of_name := fun z =>
             match find (fun i => (nth i nm 0 =? z)%Z) (seq 0 (length nm)) with Some i => i | None => O end in
-          let r := if (m =? 0)%Z then final_list Z (table_work tb) co [] sg
-                   else final_files Z (table_work tb) name chunk_of_name co [] sg in
+          let seeds := map (fun _ => 0%Z) tb in      (* one (unused) seed per chunk *)
+          let r := if (m =? 0)%Z then final_list Z (table_work tb) co seeds sg
+                   else final_files Z (table_work tb) name chunk_of_name co seeds sg in
           sx_ok (of_option (of_list of_record) r)
       | _, _, _, _, _ => sx_bad
       end
@@ -220,6 +244,27 @@ Definition run_seeds_sx (x : sx) : sx :=
   | _ => sx_bad
   end.
 
+(* input: (n p c cell_ids codes durs stream sigma) -> option ((cell id, seed of its chunk) ...) in
+   the order of the final result: mapping_result with work_rows r0 r1 seed = the cells of rows
+   r0..r1 each paired with the seed *)
+Definition run_mapping_result_sx (x : sx) : sx :=
+  match x with
+  | L [n; p; c; ids; cs; ds; st; sg] =>
+      match sx_nat n, sx_nat p, sx_nat c, sx_LZ ids, sx_LZ cs, sx_Lnat ds, sx_LZ st, sx_Lnat sg with
+      | Some n, Some p, Some c, Some ids, Some cs, Some ds, Some st, Some sg =>
+          let k := length (chunks n (eff_chunk n p c)) in
+          if ((p =? 0) || (c =? 0) || negb (length ids =? n) || negb (length cs =? k)
+              || negb (length ds =? k))%nat%bool then sx_bad else
+          let W := {| code := nth_Z cs; dur := nth_N ds |} in
+          let work_rows := fun (r0 r1 : nat) (seed : Z) =>
+            map (fun r => (nth r ids (-1)%Z, seed)) (seq r0 (r1 - r0)) in
+          sx_ok (of_option (of_list of_record)
+                   (mapping_result Z (list Z) list_draw work_rows ids st n p c W sg))
+      | _, _, _, _, _, _, _, _ => sx_bad
+      end
+  | _ => sx_bad
+  end.
+
 (* input: (keys_in) -> sorted keys (the merge order of the reference-marker chunks) *)
 Definition run_merge_order (x : sx) : sx :=
   match sx_LZ x with
@@ -241,7 +286,8 @@ Definition run_selection_result (x : sx) : sx :=
 
 (* input: (n k codes durs) -> option (the order in which the per-worker partial results are
    folded): stats_result with A = list Z, add = app, partial i = [i], on the world (codes, durs).
-   By c04_stats_merge_order_fixed this is (0 1 ... k-1) for every clean world *)
+   The order is read off the event log of the pool (`starts`); by c04_stats_merge_order_fixed it
+   is (0 1 ... k-1) for every clean world *)
 Definition run_stats_merge (x : sx) : sx :=
   match x with
   | L [n; k; cs; ds] =>
